@@ -323,10 +323,7 @@ def _evaluate_call(node, defs, E):
         n = d[1] if d and d[0] == "expr" else n
     if not (isinstance(n, ast.Call) and unparse(n.func) == "self.evaluate" and len(n.args) == 2 and isinstance(n.args[0], ast.Name) and n.args[0].id == E):
         return None, None
-    x = n.args[1]
-    if isinstance(x, ast.Name):
-        d = defs.lookup(x.id, x.lineno)
-        x = d[1] if d and d[0] == "expr" else x
+    x = roles.inline(n.args[1], defs)
     try:
         return n, bary.frac_table(x)
     except Exception:
@@ -554,3 +551,79 @@ def position_tables(ctx):
         r.fail("%s::%s" % (rel.split("/")[-1], qn), rel, qn, ln, "position table indexed by element: " + txt, "`%s` indexes an array with one slot per listed element by the element number (out of bounds or wrong slot on subsets)" % txt)
     posex = ast.parse("def f(els):\n    t = _np.zeros(len(els))\n    for i, e in enumerate(els):\n        t[e] = 1").body[0]
     r.must_fire(bool(_pos_table_hits(posex)[0]), "t = zeros(len(els)); t[element]")
+
+
+# ---------------------------------------------------------------- l2_norm
+
+
+def l2_norm_rule(ctx):
+    """l2_norm(): sqrt(|c^H M c|), M the mass matrix of the function's OWN space.  The expression is evaluated into a word
+    over the letters c, c^H, M (any other leaf becomes its own letter), so spellings with .dot / @ / np.vdot agree and a
+    pairing with another matrix or with the projections does not."""
+    from .proto import NC
+
+    m = ctx.repo.mod(GF)
+    r = ctx.rule("GF-L2NORM", "l2_norm() is sqrt(|c^H M c|) with c the coefficients and M the mass matrix of the function's own space (not the pairing with the dual space that the projections carry)", 1)
+    fn = m.fn("GridFunction.l2_norm")
+    defs = roles.Defs(fn)
+    rets = [s for s in ast.walk(fn) if isinstance(s, ast.Return)]
+    if len(rets) != 1 or rets[0].value is None:
+        raise AnalysisError("GridFunction.l2_norm: no single return value")
+
+    def res(n):
+        seen = 0
+        while isinstance(n, ast.Name) and seen < 20:
+            d = defs.lookup(n.id, getattr(n, "lineno", None))
+            if not d or d[0] != "expr":
+                break
+            n, seen = d[1], seen + 1
+        return n
+
+    def fname(n):
+        return unparse(n.func).split(".")[-1] if isinstance(n, ast.Call) else None
+
+    def conj(t):
+        if t == NC.op("c"):
+            return NC.op("cH")
+        raise AnalysisError("GridFunction.l2_norm: conjugate of something other than the coefficient vector")
+
+    def term(n):
+        n = res(n)
+        txt = unparse(n).replace(" ", "")
+        if txt == "self.coefficients":
+            return NC.op("c")
+        if txt in ("self.space.mass_matrix()", "self._space.mass_matrix()"):
+            return NC.op("M")
+        if isinstance(n, ast.Attribute) and n.attr == "T":
+            return term(n.value)  # transposition of a vector / of the Hermitian mass matrix word is decided by the conjugates
+        if isinstance(n, ast.Call) and isinstance(n.func, ast.Attribute) and n.func.attr in ("conjugate", "conj") and not n.args:
+            return conj(term(n.func.value))
+        if isinstance(n, ast.Call) and fname(n) in ("conj", "conjugate") and len(n.args) == 1:
+            return conj(term(n.args[0]))
+        if isinstance(n, ast.Call) and isinstance(n.func, ast.Attribute) and n.func.attr == "dot" and len(n.args) == 1 and unparse(n.func.value) not in ("np", "_np", "numpy"):
+            return term(n.func.value) * term(n.args[0])
+        if isinstance(n, ast.Call) and fname(n) in ("dot", "matmul", "inner") and len(n.args) == 2:
+            return term(n.args[0]) * term(n.args[1])
+        if isinstance(n, ast.Call) and fname(n) == "vdot" and len(n.args) == 2:
+            return conj(term(n.args[0])) * term(n.args[1])
+        if isinstance(n, ast.BinOp) and isinstance(n.op, (ast.MatMult, ast.Mult)):
+            return term(n.left) * term(n.right)
+        return NC.op("‹%s›" % txt[:60])
+
+    v = res(rets[0].value)
+    peeled = []
+    while True:
+        v = res(v)
+        if isinstance(v, ast.Call) and fname(v) in ("sqrt", "abs", "absolute", "real") and len(v.args) == 1:
+            peeled.append(fname(v))
+            v = v.args[0]
+        elif isinstance(v, ast.Attribute) and v.attr == "real":
+            peeled.append("real")
+            v = v.value
+        else:
+            break
+    got = term(v)
+    want = NC.op("cH") * NC.op("M") * NC.op("c")
+    ok = got == want and peeled[:1] == ["sqrt"] and peeled.count("sqrt") == 1
+    r.check(ok, "GridFunction.l2_norm", GF, "GridFunction.l2_norm", rets[0].lineno, "l2_norm returns %s of %r" % ("/".join(peeled) or "-", got),
+            "l2_norm returns %s(%r); expected sqrt(|cH.M.c|) with M = self.space.mass_matrix(): another matrix or vector in the product is the pairing with another space (equal to the norm only when the dual space is the space itself)" % ("/".join(peeled) or "", got))
